@@ -99,12 +99,7 @@ func c13Expected(c *storeCase) (map[string]*c13Sample, int) {
 				for _, o := range lv.Obs {
 					s.count++
 					s.sum += float64(o)
-					for _, b := range bounds {
-						if float64(o) <= b {
-							per[b]++
-							break
-						}
-					}
+					per[sm.bucketOf(float64(o))]++
 				}
 				var run uint64
 				for _, b := range bounds {
@@ -301,6 +296,20 @@ func TestC13(t *testing.T) {
 			c = genStore(rt, storeGenOpts{badNames: unrepOK, badValues: unrepOK, labelAlpha: labelPoolProm, nonFinite: true, sharedNames: true, maxMetrics: 6})
 			if !unrepOK {
 				st.Excluded("C13-1")
+			}
+			for i := range c.Metrics {
+				sm := &c.Metrics[i]
+				if sm.typ() == metrics.Buckets && rapid.IntRange(0, 3).Draw(rt, "shufflebuckets") == 0 {
+					// a store built through the API may hold a histogram's ranges in any order
+					sm.BucketOrder = rapid.Permutation(func() []int {
+						ix := make([]int, len(sm.Bounds)+1)
+						for k := range ix {
+							ix[k] = k
+						}
+						return ix
+					}()).Draw(rt, "bucketorder")
+					st.Class("histogram-ranges-stored-out-of-order")
+				}
 			}
 			if genPhase2(rt, &c) {
 				st.Class("second-scrape-after-store-change")
